@@ -430,26 +430,54 @@ def a2(facts, tier):
                  f"reaches the caller as `Any {{ .. }}` instead of its message" if missing else ""))
 
 
-@rule("N1", ["C10"], floor=1, doc="connection creation negotiates min(own latest version, callee's reported version) and hands exactly that value on")
+@rule("N1", ["C10"], floor=1, doc="connection creation negotiates min(own latest version, the version the callee reported through "
+      "InterrogateVersion) and hands exactly that value to the second InterrogateMethods and to analyze_and_create")
 def n1(facts, tier):
-    f = None
+    # the function that sends InterrogateVersion (wherever the negotiation code lives)
+    cands = []
     for fid, g in facts.fns.items():
-        if fid.startswith("savefile_abi::AbiConnection<") and fid.endswith("::new_internal"):
-            f = g
-    if f is None:
+        if g["crate"] != "savefile_abi" or not g.get("body"):
+            continue
+        for x in walk(g["body"]):
+            if x.get("k") == "Adt" and x.get("adt") == "savefile_abi::AbiProtocol" and x.get("variant") == "InterrogateVersion":
+                cands.append((g, x))
+    for f, iv in cands:
+        if "abi_entry" in f["id"]:
+            continue
+        # the variable the callee's interface version is received into
+        recv = None
+        for fl in iv["fields"]:
+            if fl["f"] == "abi_version_receiver":
+                vs = [y["v"] for y in walk(fl["e"]) if y.get("k") == "Var"]
+                recv = vs[0] if vs else None
+        own = None
+        for x in walk(f["body"]):
+            if x.get("k") == "LetS" and x["pat"].get("k") == "Bind" and x.get("init") is not None:
+                i = peel_block(peel(x["init"]))
+                if i.get("k") == "Call" and (callee(i) or "").endswith("get_latest_version"):
+                    own = x["pat"]["v"]
+        eff = None
+        detail = "no `min(own latest version, reported callee version)` found"
+        for x in walk(f["body"]):
+            if x.get("k") == "LetS" and x["pat"].get("k") == "Bind" and x.get("init") is not None:
+                i = peel_block(peel(x["init"]))
+                if i.get("k") == "Call" and (callee(i) or "").endswith("::min") and len(i["args"]) == 2:
+                    vs = {peel(a).get("v") for a in i["args"]}
+                    if vs == {recv, own} and None not in vs:
+                        eff = x["pat"]["v"]
+        ok = eff is not None
+        used_ctor = used_msg = False
+        if ok:
+            for x in walk(f["body"]):
+                if x.get("k") == "Call" and (callee(x) or "").endswith("analyze_and_create"):
+                    used_ctor = used_ctor or any(peel(a).get("k") == "Var" and peel(a)["v"] == eff for a in x["args"])
+                if x.get("k") == "Adt" and x.get("adt") == "savefile_abi::AbiProtocol" and x.get("variant") == "InterrogateMethods":
+                    for fl in x["fields"]:
+                        if fl["f"] == "callee_schema_version_interrogated" and peel(fl["e"]).get("k") == "Var" and peel(fl["e"])["v"] == eff:
+                            used_msg = True
+            detail = f"effective version = min(own latest, reported) in {f['id']}; handed to analyze_and_create: {used_ctor}; asked of the callee: {used_msg}"
+        yield ob(["C10"], "N1", "negotiation", "pass" if ok and used_ctor and used_msg else "violation", where(f), detail)
         return
-    ok = False
-    detail = "no `effective_version = a.min(b)` found"
-    for x in walk(f["body"]):
-        if x.get("k") == "LetS" and x["pat"].get("k") == "Bind" and x["pat"]["v"].startswith("effective_version#") and x.get("init"):
-            i = peel_block(peel(x["init"]))
-            if i.get("k") == "Call" and (callee(i) or "").endswith("::min") and len(i["args"]) == 2:
-                names = sorted(origin(a)[1] if origin(a)[0] == "var" else str(origin(a)) for a in i["args"])
-                ok = names == ["callee_abi_version", "own_version"]
-                detail = f"effective_version = min({', '.join(names)})"
-            else:
-                detail = f"effective_version is computed by {callee(i) if i.get('k') == 'Call' else i.get('k')}, not by min of both versions"
-    yield ob(["C10"], "N1", "negotiation", "pass" if ok else "violation", where(f), detail)
 
 
 def ancestors(pm, n):
